@@ -48,11 +48,11 @@ class State:
         self.heap = {}  # heap array key -> z3 array term (only arrays that differ from / were created after entry)
         self.pc = []
         self.guards = []
-        self.alloc = z3.Int("alloc!0")
-        self.out = z3.Const("out!0", z3.SeqSort(z3.StringSort()))
+        self.alloc = z3.Int("alloc@entry")
+        self.out = z3.Const("out@entry", z3.SeqSort(z3.StringSort()))
         self.trace = []
         self.ghost = {}
-        self.fs = z3.Int("fs!0")  # abstract file-system state token (reads are functions of it)
+        self.fs = z3.Int("fs@entry")  # abstract file-system state token (reads are functions of it)
         self.old = None  # State at function entry (for old())
         self.dead = False
 
@@ -89,6 +89,7 @@ class State:
         eh = self.ex.entry_heap
         if key not in eh:
             eh[key] = z3.Const(f"H!{key}", z3.ArraySort(dom_sort, rng_sort))
+            self.ex.entry_heap_created(key, eh[key])
         return eh[key]
 
     def get_field(self, ref_e, key, ty):
